@@ -311,10 +311,11 @@ impl ChessMove {
             };
         }
 
-        let ep = if let Some(s) = move_text.get(cur_index..) {
-            s == " e.p."
-        } else {
-            false
+        // nothing but the optional en passant specifier may follow
+        let ep = match move_text.get(cur_index..) {
+            Some("") | None => false,
+            Some(" e.p.") => true,
+            Some(_) => return Err(error),
         };
 
         //if ep {
